@@ -496,6 +496,18 @@ impl Gen {
             (None, 2) => Op::Withdraw { vamm: v, amount: rng.range128(1, d * 10) },
             _ => self.gen_open(r, rng, &actor, v),
         };
+        // zero arguments now and then (every one of them has to be refused)
+        let op = if rng.chance(1, 60) {
+            match op {
+                Op::Open { vamm, side, leverage, limit, .. } if rng.chance(1, 2) => Op::Open { vamm, side, margin: 0, leverage, limit },
+                Op::Open { vamm, side, margin, limit, .. } => Op::Open { vamm, side, margin, leverage: 0, limit },
+                Op::Deposit { vamm, .. } => Op::Deposit { vamm, amount: 0 },
+                Op::Withdraw { vamm, .. } => Op::Withdraw { vamm, amount: 0 },
+                o => o,
+            }
+        } else {
+            op
+        };
         let mut st = Step::new(&actor, op);
         st.funds = native_funds(r, &actor, &st.op);
         if r.w.cfg.coll.is_native() && matches!(st.op, Op::Deposit { .. }) && rng.chance(1, 5) {
@@ -685,6 +697,12 @@ impl Gen {
                 (None, Some(to_if))
             };
             return Step::new(&roles.vamm_owner[v], Op::VammConfig { vamm: v, holding_cap: None, oi_cap: None, toll: None, spread: None, fluct: None, margin_engine: me, insurance_fund: ifn, pricefeed: None, twap_interval: None });
+        }
+        if matches!(prop.as_str(), "C03" | "C12" | "C13" | "C09") && rng.chance(1, 10) {
+            // re-point the engine's fee pool at a plain account and back
+            let cur = r.obs.eng.as_ref().map(|e| e.fee_pool.clone()).unwrap_or_default();
+            let to = if cur == r.w.addrs.fee_pool { "newowner".to_string() } else { "@fp".to_string() };
+            return Step::new(&roles.engine_owner, Op::EngineConfig { owner: None, insurance_fund: None, fee_pool: Some(to), initial: None, maintenance: None, partial: None, liq_fee: None });
         }
         let choice = rng.below(if prop == "C09" || prop == "C14" { 24 } else { 18 });
         match choice {
